@@ -223,7 +223,7 @@ class Tamper:
                 return out
             m = dict(own[-1] if op.get("which", "last") == "last" else own[0])
             how = op.get("as", "peer")
-            m["side"] = peer if how == "peer" else (vs + op.get("suffix", "\u00e9") if how == "own+suffix" else fresh)
+            m["side"] = peer if how == "peer" else (vs + op.get("suffix", "\u00e9") if how == "own+suffix" else (vs.upper() if how == "own-upper" else fresh))
             m["id"] = t["id"]
             if op.get("phase"):
                 m["phase"] = op["phase"]
